@@ -15,7 +15,7 @@ import ast
 
 from .core import AnalysisError, call_name, norm, const
 
-KINDS = ("none", "list", "tuple", "set", "dict", "str", "int", "bool", "bytes", "other")
+KINDS = ("none", "list", "tuple", "set", "dict", "str", "int", "float", "bool", "bytes", "other")
 TYPE_KIND = {"list": "list", "tuple": "tuple", "set": "set", "dict": "dict", "str": "str", "int": "int", "bool": "bool", "bytes": "bytes",
              "frozenset": "set"}
 
@@ -291,7 +291,11 @@ class Interp:
             unknown_type = False
             for ty in types:
                 nm = norm(ty).split(".")[-1]
-                if nm in TYPE_KIND:
+                if nm == "Number":
+                    kinds.update(("int", "float", "bool"))
+                elif nm == "float":
+                    kinds.add("float")
+                elif nm in TYPE_KIND:
                     kinds.add(TYPE_KIND[nm])
                     if nm == "int":
                         kinds.add("bool")
